@@ -163,13 +163,6 @@ Theorem C12_output_ellipsis_only_refuted :
 Proof. exact output_ellipsis_only_refuted. Qed.
 Print Assumptions C12_output_ellipsis_only_refuted.
 
-(* new: the interleaved face of the same class: einsum(x, [0,1], [Ellipsis,1,0]) raises KeyError even
-   with all proposed fixes (no patch proposed for this one) *)
-Theorem C12_interleaved_output_ellipsis_only_refuted :
-  exists ops out, agrees_args_v all_fixes (AInter ops out) = Some false /\ np_out_shape (AInter ops out) = Some [3;2]%Z.
-Proof. exact interleaved_output_ellipsis_only_refuted. Qed.
-Print Assumptions C12_interleaved_output_ellipsis_only_refuted.
-
 (* --- model = NumpySpec, GENERAL (string form) ----------------------------------------------
    For EVERY string eq and EVERY list of shapes: if numpy's rules (np_parse) accept the call with
    parse (nops, nout), then the front end of the code as it stands (blanks removed, output-only
@@ -223,15 +216,14 @@ Print Assumptions C12_lexer_sound.
 
 (* --- model = NumpySpec, GENERAL (interleaved form) ------------------------------------------
    For EVERY interleaved call einsum(op0, sublist0, ..., [sublistout]) that numpy's rules accept
-   (integer labels 0..51, Ellipsis), with or without output sublist -- except the known class whose
-   ONLY Ellipsis is in the output sublist (finding interleaved-output-ellipsis-only) -- the code as it
-   stands builds an equation string and parses it to numpy's terms and output, letters renamed to the
+   (integer labels 0..51, Ellipsis, at least one operand), with or without output sublist, the front
+   end (with the interleaved fixes: implicit output sorted by label, output Ellipsis rendered without
+   lookup) builds an equation string and parses it to numpy's terms and output, letters renamed to the
    model's own symbols (allocated by first appearance) and LB k to the model's ellipsis symbols.
-   This includes the now-fixed implicit output order (sorted by label, broadcast dimensions first). *)
+   No input class is excluded any more. *)
 Theorem C12_interleaved_matches_numpy : forall ops out nops nout,
   np_parse_inter ops out = Some (nops, nout) ->
-  (match out with Some o => In IE o -> In IE (concat (map snd ops)) | None => True end) ->
-  exists eq, convert_from_interleaved_v true (map snd ops) out = Some eq /\
+  exists eq, convert_from_interleaved_v true true (map snd ops) out = Some eq /\
     let E := model_ellipses_inds eq (map fst ops) in
     let r := rho_args (AInter ops out) E in
     parse_equation_ellipses_v true eq (map fst ops) = Some (map (map r) nops, map r nout).
@@ -239,11 +231,19 @@ Proof. exact inter_matches_numpy. Qed.
 Print Assumptions C12_interleaved_matches_numpy.
 
 Theorem C12_interleaved_form_agrees_with_numpy : forall fx ops out,
-  fx_inter fx = true -> fx_outell fx = true ->
-  (match out with Some o => In IE o -> In IE (concat (map snd ops)) | None => True end) ->
+  fx_inter fx = true -> fx_outell fx = true -> fx_interout fx = true ->
   agrees_args_v fx (AInter ops out) = match np_parse_inter ops out with Some _ => Some true | None => None end.
 Proof. exact inter_agrees_with_numpy. Qed.
 Print Assumptions C12_interleaved_form_agrees_with_numpy.
+
+(* formerly C12_interleaved_output_ellipsis_only_refuted: the class "Ellipsis in the output sublist
+   and in no input sublist" now agrees with the specification whenever numpy accepts the call *)
+Theorem C12_interleaved_output_only_ellipsis_matches_numpy : forall ops o,
+  In IE o -> ~ In IE (concat (map snd ops)) ->
+  agrees_args_v all_fixes (AInter ops (Some o)) =
+  match np_parse_inter ops (Some o) with Some _ => Some true | None => None end.
+Proof. exact interleaved_output_only_ellipsis_agrees. Qed.
+Print Assumptions C12_interleaved_output_only_ellipsis_matches_numpy.
 
 (* the renaming of the letters is injective: distinct labels of the call receive distinct symbols *)
 Theorem C12_interleaved_symbols_injective : forall inputs, exists c,
@@ -283,8 +283,7 @@ Print Assumptions C12_sweep_interleaved_explicit_pinned.
 
 (* ... and of the code with the proposed fix also without it (implicit output sorted by label) *)
 Theorem C12_sweep_interleaved_fixed :
-  forallb (fun c => output_only_ellipsis (fst c) (snd c) ||
-                    not_refuted (agrees_args_v all_fixes (sweep_args_inter (fst c) (snd c)))) sweep_calls = true.
+  forallb (fun c => not_refuted (agrees_args_v all_fixes (sweep_args_inter (fst c) (snd c)))) sweep_calls = true.
 Proof. exact sweep_inter_fixed. Qed.
 Print Assumptions C12_sweep_interleaved_fixed.
 
@@ -294,6 +293,14 @@ Example C12_sweep_nonvacuous :
   length (filter (fun c => is_agree (agrees_args_v all_fixes (sweep_args_str (fst c) (snd c)))) sweep_calls) =
   length (filter (fun c => match np_parse_args (sweep_args_str (fst c) (snd c)) with Some _ => true | None => false end) sweep_calls).
 Proof. exact sweep_sizes. Qed.
+
+(* einsum(x, [0,1], [Ellipsis,1,0]): refuted before the interleaved-output-ellipsis-only repair, fine after *)
+Example C12_interleaved_output_ellipsis_only_witness :
+  let a := AInter [([2;3]%Z, [IL 0; IL 1])] (Some [IE; IL 1; IL 0]) in
+  agrees_args_v (mkFx true true true false) a = Some false /\
+  agrees_args_v all_fixes a = Some true /\
+  np_out_shape a = Some [3;2]%Z /\ front_out_shape_v all_fixes a = Some [3;2]%Z.
+Proof. exact interleaved_output_ellipsis_only_witness. Qed.
 
 (* the refutation witnesses are repaired by the proposed fixes *)
 Example C12_fixes_repair_witnesses :
